@@ -58,13 +58,15 @@ PARAM_HINTS = {
     ("Pyro5.client.BatchProxy.__init__", "proxy"): {"cls:Pyro5.client.Proxy"},
 }
 
-LOCAL_HINTS = {
-    ("Pyro5.svr_multiplex.SocketServer_Multiplex.events", "s"): {"cls:Pyro5.socketutil.SocketConnection"},   # file objects registered with the selector are SocketConnections (or the server socket, tested by identity first)
-    # (function qualname, local name) -> types, for loop variables / unpacked values the inference cannot see
-    ("Pyro5.svr_multiplex.SocketServer_Multiplex.loop", "server"): {"cls:Pyro5.svr_multiplex.SocketServer_Multiplex"},
-    ("Pyro5.svr_threads.Pool.close", "w"): {"cls:Pyro5.svr_threads.Worker"},
-    ("Pyro5.svr_threads.Pool.close", "p"): {"cls:Pyro5.svr_threads.Worker"},
-    ("Pyro5.svr_threads.Pool.process", "worker"): {"cls:Pyro5.svr_threads.Worker"},
+# element types of containers (frozen, confirmed by reading): locals that are taken out of these containers get the element type,
+# whatever the local is called (hints never depend on the name of a local variable)
+CONTAINER_ELEMS = {
+    ("attr", "Pyro5.svr_threads.Pool", "idle"): {"cls:Pyro5.svr_threads.Worker"},      # Pool.idle / Pool.busy hold Worker threads only
+    ("attr", "Pyro5.svr_threads.Pool", "busy"): {"cls:Pyro5.svr_threads.Worker"},
+    ("param", "Pyro5.svr_multiplex.SocketServer_Multiplex.events", "eventsockets"): {"cls:Pyro5.socketutil.SocketConnection"},
+    # ^ file objects delivered by the selector are SocketConnections (or the server socket, which events() tests by identity first)
+    ("for-items-key", "Pyro5.svr_multiplex.SocketServer_Multiplex.loop", ""): {"cls:Pyro5.svr_multiplex.SocketServer_Multiplex"},
+    # ^ keys of the per-server event dict are the `data` registered with the selector: transport servers of this kind (combine_loop)
 }
 
 ELEM_HINTS = {
@@ -140,7 +142,7 @@ class CallGraph:
         if key in self._local_cache:
             return self._local_cache[key]
         self._local_cache[key] = set()   # recursion guard
-        out = set(LOCAL_HINTS.get(key, ()))
+        out = set()
         if name in f.params:
             if name == f.self_name and f.cls is not None:
                 out.add("cls:" + f.cls.qualname)
@@ -162,8 +164,54 @@ class CallGraph:
                         it = self.expr_types(n.iter, f, depth + 1)
                         if "sers" in it or "sers-values" in it:
                             out.add("ser")
+                        out |= self.elem_types(n.iter, f, depth + 1)
+                    elif isinstance(n.target, ast.Tuple) and n.target.elts and isinstance(n.target.elts[0], ast.Name) and n.target.elts[0].id == name:
+                        if isinstance(n.iter, ast.Call) and isinstance(n.iter.func, ast.Attribute) and n.iter.func.attr == "items":
+                            out |= set(CONTAINER_ELEMS.get(("for-items-key", f.qualname, ""), ()))
+                elif isinstance(n, ast.Assign) and isinstance(n.value, ast.Tuple):
+                    # a, b = x, y
+                    for t in n.targets:
+                        if isinstance(t, ast.Tuple) and len(t.elts) == len(n.value.elts):
+                            for te, ve in zip(t.elts, n.value.elts):
+                                if isinstance(te, ast.Name) and te.id == name:
+                                    out |= self.expr_types(ve, f, depth + 1)
         self._local_cache[key] = out
         return out
+
+    def elem_types(self, expr, f, depth=0):
+        """types of the elements of a container expression: list(X), X.copy(), self.<attr>, <param>, local alias of one of those"""
+        if depth > 6:
+            return set()
+        if isinstance(expr, ast.Call) and isinstance(expr.func, ast.Name) and expr.func.id in ("list", "tuple", "set", "sorted", "iter", "reversed") and expr.args:
+            return self.elem_types(expr.args[0], f, depth + 1)
+        if isinstance(expr, ast.Call) and isinstance(expr.func, ast.Attribute) and expr.func.attr in ("copy", "keys"):
+            return self.elem_types(expr.func.value, f, depth + 1)
+        if isinstance(expr, ast.Attribute):
+            out = set()
+            for t in self.expr_types(expr.value, f, depth + 1):
+                if t.startswith("cls:"):
+                    for c in self.p.mro(self.p.classes[t[4:]]):
+                        out |= set(CONTAINER_ELEMS.get(("attr", c.qualname, expr.attr), ()))
+            return out
+        if isinstance(expr, ast.Name):
+            g = f
+            while g is not None:
+                if self.is_local(g, expr.id):
+                    if expr.id in g.params:
+                        return set(CONTAINER_ELEMS.get(("param", g.qualname, expr.id), ()))
+                    out = set()
+                    for n in walk_no_nested(g.node):
+                        if isinstance(n, ast.Assign):
+                            for t in n.targets:
+                                if isinstance(t, ast.Name) and t.id == expr.id:
+                                    out |= self.elem_types(n.value, g, depth + 1)
+                                elif isinstance(t, ast.Tuple) and isinstance(n.value, ast.Tuple) and len(t.elts) == len(n.value.elts):
+                                    for te, ve in zip(t.elts, n.value.elts):
+                                        if isinstance(te, ast.Name) and te.id == expr.id:
+                                            out |= self.elem_types(ve, g, depth + 1)
+                    return out
+                g = g.parent
+        return set()
 
     def is_local(self, f, name):
         """is `name` a local (assigned / parameter) of f?"""
@@ -244,6 +292,10 @@ class CallGraph:
                 if f is not None and f.cls is not None:
                     return {"super:" + f.cls.qualname}
                 return set()
+            if isinstance(expr.func, ast.Attribute) and expr.func.attr == "pop" and not expr.args:
+                et = self.elem_types(expr.func.value, f, depth + 1)
+                if et:
+                    return et
             if isinstance(expr.func, ast.Attribute) and expr.func.attr == "__new__":
                 # C.__new__(C): an uninitialised instance of C
                 bt = self.expr_types(expr.func.value, f, depth + 1)
